@@ -12,6 +12,7 @@ import (
 	"fmt"
 	"os"
 	"strings"
+	"sync"
 	"time"
 
 	"seata.apache.org/seata-go/pkg/protocol/branch"
@@ -123,7 +124,7 @@ func main() {
 		r := o.Rand(int64(i))
 		var branches [][]atlab.Stmt
 		for _, st := range sc.Steps {
-			if st.Op == "p1" || st.Op == "p1late" {
+			if st.Op == "p1" || st.Op == "p1late" || st.Op == "p1race" {
 				branches = append(branches, st.Stmts)
 			}
 		}
@@ -148,6 +149,29 @@ func main() {
 		style := atlab.RandStyle(r)
 		if v := os.Getenv("STYLE_MULTI"); v != "" {
 			style.Multi = v == "1" // debugging aid: force / forbid the multi-statement spelling
+		}
+		for _, f := range strings.Split(os.Getenv("STYLE_FORCE"), ",") {
+			// a leg that wants one spelling for all its scenarios instead of the random mix
+			switch f {
+			case "pklate":
+				style.PkLate = true
+			case "bound":
+				style.Literal = false
+			case "literal":
+				style.Literal = true
+			case "multi":
+				style.Multi = true
+			case "single":
+				style.Multi = false
+			case "explicit":
+				style.Explicit = true
+			}
+		}
+		if os.Getenv("ONLYCARE") != "false" {
+			// with only-care-update-columns on, the image of an INSERT that names some of the columns is a projection
+			// on those columns, and what a foreign change to an omitted column then means for the rollback is not
+			// settled by C09 / C18 (DESIGN 9): omitted columns are exercised where images are whole rows by configuration
+			style.OmitU = false
 		}
 		curStyle = style
 		cls := fmt.Sprintf("schema=%s,lit=%v,explicit=%v", schema.Name, style.Literal, style.Explicit)
@@ -326,6 +350,81 @@ func run(lab *atlab.Lab, t *trace.T, sc scenario, schema *atlab.Schema, style at
 				}
 				t.Add("P1Late", "b", nb, "stmts", st.Stmts, "ok", err == nil, "rbstatus", rbStatus, "undo", undo, "db", db,
 					"extra", extra, "idle", lab.Idle(), "sig", fmt.Sprintf("%s:%s:explicit=%v", sigBase, stmtSig(st.Stmts), style.Explicit))
+			case "p1race":
+				// the rollback of this branch and the end of its phase one interleave statement by statement: the
+				// rollback transaction reads undo_log (no log yet) - phase one flushes and commits - the rollback
+				// writes its marker.  The statement gate holds the rollback's INSERT into undo_log until phase one is done.
+				nb++
+				var rbStatus string
+				armed := true
+				var mu sync.Mutex
+				rbConn, held := -1, false
+				reached, release, rbDone := make(chan struct{}), make(chan struct{}), make(chan struct{})
+				lab.Srv.SetGate(func(e *memsql.Entry) error {
+					if !strings.EqualFold(e.Table, "undo_log") {
+						return nil
+					}
+					mu.Lock()
+					if strings.HasPrefix(e.Class, "select") && rbConn < 0 {
+						rbConn = e.Conn
+					}
+					hold := e.Class == "insert" && e.Conn == rbConn && !held
+					if hold {
+						held = true
+					}
+					mu.Unlock()
+					if hold {
+						close(reached)
+						<-release
+					}
+					return nil
+				})
+				lab.Coord.Script = func(kind string, m tc.Msg) (tc.Reply, bool) {
+					if kind != "BranchRegister" || !armed {
+						return tc.Reply{}, false
+					}
+					armed = false
+					rep := lab.Coord.Model(kind, m)
+					resp, ok := rep.Body.(message.BranchRegisterResponse)
+					if !ok || resp.ResultCode != message.ResultCodeSuccess {
+						return rep, true
+					}
+					bids[nb] = resp.BranchId
+					rep.Before = func() {
+						go func() {
+							defer close(rbDone)
+							st, ok := lab.Coord.BranchRollback(lab.Sess, xid, resp.BranchId, branch.BranchTypeAT, lab.RID, nil, 20*time.Second)
+							rbStatus = atlab.StatusName(st, ok)
+						}()
+						select {
+						case <-reached: // the rollback has read undo_log and stands before its marker
+						case <-rbDone: // it ended without writing a marker
+						case <-time.After(5 * time.Second):
+						}
+					}
+					return rep, true
+				}
+				err := lab.RunBranch(ctx, schema, st.Stmts, style)
+				lab.Coord.Script = nil
+				close(release)
+				if _, ok := bids[nb]; ok {
+					<-rbDone
+				}
+				lab.Srv.SetGate(nil)
+				sig := fmt.Sprintf("%s:%s:explicit=%v", sigBase, stmtSig(st.Stmts), style.Explicit)
+				if _, ok := bids[nb]; !ok {
+					if err != nil {
+						t.Add("Abort", "why", "p1 failed before register: "+err.Error(), "sig", sig)
+						aborted = true
+						return err
+					}
+					t.Add("Abort", "why", "the statements changed nothing, no branch", "sig", sig)
+					aborted = true
+					return fmt.Errorf("done")
+				}
+				db, extra := lab.Project(schema)
+				t.Add("P1Race", "b", nb, "stmts", st.Stmts, "ok", err == nil, "rbstatus", rbStatus, "undo", lab.UndoState(xid, bids[nb]), "db", db,
+					"extra", extra, "idle", lab.Idle(), "sig", sig+":rb="+rbStatus)
 			case "foreign":
 				if err := lab.Put(schema, st.K, *st.Row); err != nil {
 					t.Add("Abort", "why", "foreign write failed: "+err.Error(), "sig", "foreign")
@@ -359,7 +458,7 @@ func run(lab *atlab.Lab, t *trace.T, sc scenario, schema *atlab.Schema, style at
 	kindsOf := map[int]string{}
 	n := 0
 	for _, s := range sc.Steps {
-		if s.Op == "p1" || s.Op == "p1late" {
+		if s.Op == "p1" || s.Op == "p1late" || s.Op == "p1race" {
 			n++
 			kindsOf[n] = stmtSig(s.Stmts)
 		}
